@@ -69,7 +69,15 @@ static mut EXPECT: Expect = Expect {
 
 const MAXCHK: usize = 40;
 
+/// Length-only expectation (symbolic lengths): the Dublin/IPv6 wire contract "UDP payload length =
+/// marker + (sequence - initial sequence)" for EVERY offset, not just the representatives.
+static mut EXPECT_LEN: Option<usize> = None;
+
 fn on_send(b: &[u8]) {
+    if let Some(n) = unsafe { EXPECT_LEN } {
+        assert!(b.len() == n, "Dublin/IPv6: datagram length = UDP header + marker + sequence offset");
+        assert!(usize::from(be16(b, 4)) == n, "Dublin/IPv6: UDP length field = datagram length");
+    }
     let e = unsafe { EXPECT };
     if !e.active {
         return;
@@ -262,10 +270,13 @@ fn c07_v6_dublin_payload_slice_in_range() {
     let off: u16 = kani::any();
     kani::assume(off <= 970 && ipv6.initial_sequence.0 <= u16::MAX - off);
     probe.sequence = Sequence(ipv6.initial_sequence.0 + off);
+    unsafe { EXPECT_LEN = Some(8 + 6 + usize::from(off)) };
     let mut s = HSock;
     let r = ipv6.dispatch_udp_probe(&mut s, probe);
     assert!(r.is_ok());
+    assert!(unsafe { sockstate::SEND_CALLS } == 1, "exactly one datagram");
     kani::cover!(off == 970, "largest payload");
+    kani::cover!(off == 300, "an offset above 255");
 }
 
 #[kani::proof]
@@ -471,6 +482,7 @@ fn verif_reset_statics() {
     sock::reset();
     unsafe {
         EXPECT.active = false;
+        EXPECT_LEN = None;
     }
     clock::set(0, 0, 0);
 }
